@@ -7,6 +7,7 @@ import layout
 import vec
 import cmp as cmpu
 import conv
+import refops
 
 AAP = 'cntgs::detail::AllocatorAwarePointer<.*>::'
 AAP_UNITS = [
@@ -76,6 +77,14 @@ PROPERTY_META = {
                 text='The real cntgs::detail::uninitialized_construct (the single funnel of every FixedSize/VaryingSize store) is verified per stored type x source value type x source form (pointer, std::array lvalue and rvalue, C array, non-contiguous generated iterator, aliasing-safe path) against: stored item k == StoredType(source item k) evaluated in C on the scalar types for an arbitrary witness k, returned end == target + n items, and an assigns clause that contains only the target items (sources unmodified). emplace_at is proved (unbounded) to pass its arguments to these stores at the right addresses.',
                 note='Bounded: at most 4 items per span (copy loops unwound with unwinding assertions); the memcpy branch is covered by the copy model that is exact at the witness item. Class types with converting constructors, std::list and move_iterator sources are not under contract; conversions that are undefined in C++ (float out of range) are excluded by precondition.',
                 design_ref='DESIGN.md 6 C15'),
+    'C11': dict(claimed=True, level='model_checking',
+                text='operator[] and iterator dereference (both const overloads) are verified to build a reference whose pointers are exactly the stored objects of the indexed element (so every access path denotes the same objects); iterator.data() is the element start; reference = reference is verified per list (trivial fields coalesced into memmove runs, vf::Tracked fields through the value type) against: trivial fields hold the source bytes (witness address), every non-trivial item is copy- resp. move-assigned exactly once from the item at the same place, an lvalue source is not moved from and not written; swap exchanges trivial bytes and swaps non-trivial items through their move operations.',
+                note='Bounded: span items <= 2, loops unwound; iterator arithmetic/comparison operators and the permuting std algorithms are not under contract (index arithmetic on a size_t member; libstdc++ algorithms trusted).' + VEC_NOTE,
+                design_ref='DESIGN.md 6 C11'),
+    'C06': dict(claimed=True, level='model_checking',
+                text='A ghost lifetime model of the non-trivial value type vf::Tracked (every special member reports to a hook; one arbitrary watched address) asserts inside every function under contract: no construction over an alive object, no read/assign/destroy of a dead object, no byte copy over an alive object; reference assignment, swap and ElementTraits::destruct are verified to construct nothing, destroy exactly the items of the element once, and assign each item through its own operator.',
+                note='Bounded: span items <= 2. Vector-level histories with non-trivial types (erase/reserve/copy relocation loops) are covered only where vec.*t* units are listed in the evidence.',
+                design_ref='DESIGN.md 6 C06'),
     'C18': dict(claimed=True, level='model_checking',
                 text='The pre-states of all vector-level contracts include never-filled vectors (address table content arbitrary), emptied vectors and capacity 0; size/empty/data_begin/data_end/clear/erase/reserve/swap/constructor contracts are discharged on them with all pointer checks on, so no result depends on an uninitialised table slot.',
                 note='Default-constructed vectors (null table) are not yet covered.' + VEC_NOTE, design_ref='DESIGN.md 6 C18'),
@@ -126,6 +135,15 @@ def units(tier, seed=0):
             us.append(dict(id='conv.%s_from_%s.%s' % (T, U, form), tu='conv_%s_%s' % (T, U), gen=cxx, template_text=conv.c_unit(T, U, form), vars={},
                            entry='h_uc', enforce='@F{%s}' % conv.FORMS[form][0], replace=[], props=['C15'], layer='memory.hpp/typeTraits.hpp',
                            kind='bounded(items <= 4, copy loop unwound)', unwind=6, cdefs=['VF_WINDOWS=1'], config='conversion: %s <- %s, %s' % (T, U, form)))
+    for spec in refops.REF_LISTS[tier]:
+        txt, L = refops.c_unit(spec)
+        cxx = refops.cxx_tu(spec)
+        for name, h, key, props in refops.REF_UNITS:
+            if name == 'swap' and len(L.params) > 2:
+                continue   # byte-swap loops plus non-trivial swaps of three-field elements exceed the memory budget
+            us.append(dict(id='ref.%s.%s' % (L.tag, name), tu='ref_' + L.tag, gen=cxx, template_text=txt, vars={}, entry=h,
+                           enforce='@F{%s}' % refops.RXR[key], replace=[], props=props, layer='reference.hpp/elementTraits.hpp',
+                           kind='bounded(span items <= 2, loops unwound)', unwind=20, cdefs=['VF_TRACKED=1'], config='reference operations: ' + spec))
     for spec in cmpu.CMP_LISTS[tier]:
         txt, L = cmpu.c_unit(spec)
         cxx = cmpu.cxx_tu(spec)
